@@ -1,12 +1,40 @@
 /-
 C03 — Allocator: live blocks aligned, disjoint, intact; OOM gives null, heap stays usable.
-(first stage: pure index lemmas over the regenerated definitions; the state theorems follow below)
+
+Objects: `Model/Dlmalloc.lean` (address-explicit chunk-level model of
+tiny-std/src/allocator/dlmalloc.rs, tied to the code by the layout-equality correspondence of
+checks/c03.py), its pure helpers `Gen/DlmallocPure.lean` (regenerated from the Rust text on every
+run), the well-formedness predicate `WF` (`Model/DlmallocWF.lean`: tiling of every segment,
+boundary tags, no adjacent free chunks, free chunks = bins ⊎ {dv} ⊎ {top}, bins indexed by size,
+tries following the size bits, live blocks ↔ in-use non-record non-fencepost chunks).
+
+Quantifiers: every history of malloc / calloc / realloc / free over named blocks, every size and
+alignment, every sequence of OS answers (any address, refusal at any position).
+
+PROVED IN FULL (no well-formedness hypothesis):
+  * pure index lemmas (§1)                      — about the regenerated definitions
+  * `oom_null`                                   — a refused mmap ⇒ null result, allocator state and
+                                                   live set exactly unchanged (so every later request
+                                                   behaves as if the refused call had not happened)
+  * `free_never_asks_for_memory`, `realloc_copy` — glue facts of the entry points
+  * `wf_init`
+PROVED FROM `WF` OF A STATE (`WF` is evaluated by the driver on every state of every explored
+history — a hypothesis checked by the correspondence; its inductiveness `wf_step` is NOT proved):
+  * `wf_live_aligned_sized`, `wf_live_disjoint`, `wf_live_inside_segment`, `never_mmapped`,
+    `metadata_outside_live_blocks`, `no_adjacent_free_chunks`, `free_chunks_accounted`,
+    `inuse_chunks_accounted`
+  * `alloc_ok_partial`, `calloc_ok_partial`, `realloc_ok_partial`, `free_ok_partial`: post-conditions
+    of one operation given `WF` of the state it produced.
+FULL STATEMENT NOT PROVED (kept for the record):
+    wf_step : WF hs → hs.step op os = .ok (hs', out) → OsContract hs os → WF hs'
+  User bytes are not modelled: "a block's bytes change only through its owner" is the static
+  `metadata_outside_live_blocks` here plus the byte-pattern oracle of the harness on the real code.
 -/
 import TinyVerif.Proofs.DlPure
-import TinyVerif.Model.Dlmalloc
+import TinyVerif.Proofs.DlWF
 namespace TinyVerif.Dl
 
-/-! ## 1. pure_index_lemmas — about `Gen/DlmallocPure.lean`, i.e. re-checked against the Rust text on every run -/
+/-! ## 1. pure_index_lemmas — about `Gen/DlmallocPure.lean` (re-checked against the Rust text on every run) -/
 
 /-- small bins: the size class of an aligned small size is exact -/
 theorem small_index_exact (s : Nat) (h8 : s % 8 = 0) (h : s < 256) :
@@ -15,5 +43,268 @@ theorem small_index_exact (s : Nat) (h8 : s % 8 = 0) (h : s < 256) :
 
 example : small_index2size (small_index 248) = 248 ∧ small_index 248 < 32 ∧ is_small 248 = true :=
   small_index_exact 248 (by decide) (by decide)
+
+/-- tree bins: every large size falls into exactly the bin whose size bracket contains it -/
+theorem tree_index_exact (s : Nat) (h1 : 256 ≤ s) :
+    compute_tree_index s < 32 ∧ is_small s = false ∧
+    (s < 2 ^ 24 → min_size_for_tree_index (compute_tree_index s) ≤ s ∧
+                   s < min_size_for_tree_index (compute_tree_index s + 1)) ∧
+    (2 ^ 24 ≤ s → compute_tree_index s = 31) := by
+  refine ⟨compute_tree_index_lt s, ?_, fun h2 => tree_index_bracket s h1 h2, compute_tree_index_big s⟩
+  cases hs : is_small s with
+  | false => rfl
+  | true => have := (is_small_iff s).1 hs; omega
+
+example : compute_tree_index 384 < 32 ∧ min_size_for_tree_index (compute_tree_index 384) ≤ 384 :=
+  ⟨(tree_index_exact 384 (by decide)).1, ((tree_index_exact 384 (by decide)).2.2.1 (by decide)).1⟩
+
+/-- request padding: monotone, leaves room for the header word, 16-aligned, at least
+MIN_CHUNK_SIZE, and free of overflow for every request below MAX_REQUEST -/
+theorem request2size_facts (r : Nat) (h : r < MAX_REQUEST) :
+    32 ≤ request2size r ∧ r + 8 ≤ request2size r ∧ request2size r < r + 33 ∧ request2size r % 16 = 0 ∧
+    request2size r + top_foot_size + MALLOC_ALIGNMENT + DEFAULT_GRANULARITY ≤ 2 ^ 64 ∧
+    (∀ r', r' ≤ r → request2size r' ≤ request2size r) := by
+  have h24 := lt_max_request_no_overflow r h
+  exact ⟨request2size_ge_min r h24, request2size_ge r h24, request2size_lt r h24, request2size_aligned r h24,
+    (request2size_lt_max r h).2, fun r' hr => request2size_mono r' r hr h24⟩
+
+example : (100 : Nat) < MAX_REQUEST := by decide
+
+/-- the bitmap tricks of the bin search: `left_bits (1 << i)` selects exactly the bins above `i`,
+`least_bit` isolates the lowest set bit -/
+theorem bitmap_tricks (i : Nat) (hi : i < 32) (x : Nat) (h0 : x ≠ 0) (hx : x < 2 ^ 32) :
+    (∀ j, (left_bits (2 ^ i)).testBit j = (decide (i < j) && decide (j < 32))) ∧
+    (∃ k, k < 32 ∧ least_bit x = 2 ^ k ∧ x.testBit k = true ∧ ∀ j < k, x.testBit j = false) ∧
+    trailing_zeros32 (2 ^ i) = i :=
+  ⟨fun j => left_bits_pow_testBit i j hi, least_bit_testBit x h0 hx, trailing_zeros32_pow i hi⟩
+
+example : (5 : Nat) < 32 ∧ (40 : Nat) ≠ 0 ∧ (40 : Nat) < 2 ^ 32 := by decide
+
+/-! ## 2. well-formedness: initial state, and what it gives for live blocks -/
+
+theorem wf_initial : WF Hist.init := wf_init
+
+/-- alignment and size: a live block is aligned as requested and lies inside the payload of an
+in-use chunk whose header sits 16 bytes before it -/
+theorem wf_live_aligned_sized (hs : Hist) (h : WF hs) (b : Block) (hb : b ∈ hs.live) :
+    b.ptr % b.align = 0 ∧
+    ∃ e ∈ hs.st.h.ents, e.addr + 16 = b.ptr ∧ e.cin = true ∧ b.ptr + b.size ≤ e.addr + e.size + 8 :=
+  live_aligned_sized h hb
+
+/-- disjointness: live blocks at different addresses do not overlap; different live blocks are at
+different addresses -/
+theorem wf_live_disjoint (hs : Hist) (h : WF hs) :
+    (∀ b1 ∈ hs.live, ∀ b2 ∈ hs.live, b1.ptr ≠ b2.ptr →
+      b1.ptr + b1.size ≤ b2.ptr ∨ b2.ptr + b2.size ≤ b1.ptr) ∧
+    (∀ pre mid post b1 b2, hs.live = pre ++ b1 :: mid ++ b2 :: post → b1.ptr ≠ b2.ptr) :=
+  ⟨fun _ h1 _ h2 hne => live_disjoint h h1 h2 hne, fun pre mid post b1 b2 hl => live_ptrs_distinct h pre mid post b1 b2 hl⟩
+
+/-- bounds: a live block lies inside one segment obtained from the OS -/
+theorem wf_live_inside_segment (hs : Hist) (h : WF hs) (b : Block) (hb : b ∈ hs.live) :
+    ∃ g ∈ hs.st.segs, g.base + 16 ≤ b.ptr ∧ b.ptr + b.size ≤ g.base + g.size :=
+  live_inside_segment h hb
+
+/-- the direct-mmap path is dead: `Chunk::mmapped` is false for the chunk of every live block -/
+theorem never_mmapped_live (hs : Hist) (h : WF hs) (b : Block) (hb : b ∈ hs.live) :
+    ∃ e, findEnt hs.st.h.ents (b.ptr - 16) = some e ∧ e.mmapped = false :=
+  never_mmapped h hb
+
+/-- owner-only writes, static form: no header word and no part of a free chunk beyond its
+prev_foot word lies inside a live block -/
+theorem metadata_outside_live_blocks (hs : Hist) (h : WF hs) (b : Block) (hb : b ∈ hs.live) (x : Ent)
+    (hx : x ∈ hs.st.h.ents) :
+    (x.addr + 16 ≤ b.ptr ∨ b.ptr + b.size ≤ x.addr + 8) ∧
+    (isFree x = true → x.addr + x.size ≤ b.ptr ∨ b.ptr + b.size ≤ x.addr + 8) :=
+  metadata_outside_live h hb hx
+
+/-- no two adjacent free chunks (full coalescing): inside a segment a free chunk other than `top` is
+followed by an in-use chunk carrying its size as prev_foot -/
+theorem no_adjacent_free_chunks (hs : Hist) (h : WF hs) (g : Seg) (hg : g ∈ hs.st.segs)
+    (pre post : List Ent) (x y : Ent) (hsplit : segEnts hs.st.h.ents g = pre ++ x :: y :: post)
+    (hf : isFree x = true) (hne : x.addr ≠ hs.st.h.top) : y.cin = true ∧ y.pfoot = x.size := by
+  have ht := h.parts.tags
+  simp only [List.all_eq_true] at ht
+  have := ht g hg
+  rw [hsplit] at this
+  exact tagsOk_adjacent this hf hne
+
+/-- free chunks = bins ⊎ {dv} ⊎ {top} -/
+theorem free_chunks_accounted (hs : Hist) (h : WF hs) (e : Ent) (he : e ∈ hs.st.h.ents) (hf : isFree e = true) :
+    e.addr = hs.st.h.top ∨ e.addr = hs.st.h.dv ∨ e.addr ∈ binned hs.st.h :=
+  free_accounted h he hf
+
+/-- in-use chunks = live blocks ⊎ segment records ⊎ fenceposts; with nothing live only the
+segment trailers remain in use (quiescent heap) -/
+theorem inuse_chunks_accounted (hs : Hist) (h : WF hs) (e : Ent) (he : e ∈ hs.st.h.ents) (hc : e.cin = true) :
+    (e.size = 8 ∨ isRecord hs.st.segs e = true ∨ ∃ b ∈ hs.live, b.ptr = e.addr + 16) ∧
+    (hs.live = [] → e.size = 8 ∨ isRecord hs.st.segs e = true) :=
+  ⟨inuse_accounted h he hc, fun hq => quiescent_canonical h hq he hc⟩
+
+/-! ## 3. one operation -/
+
+/-- the post-condition of an allocation for a new block `nb`, relative to the blocks live before -/
+def AllocPost (hs' : Hist) (old : List Block) (nb : Block) : Prop :=
+  hs'.live = nb :: old ∧ nb.ptr % nb.align = 0 ∧
+  (∃ g ∈ hs'.st.segs, g.base + 16 ≤ nb.ptr ∧ nb.ptr + nb.size ≤ g.base + g.size) ∧
+  (∀ b ∈ old, b.ptr ≠ nb.ptr ∧ (nb.ptr + nb.size ≤ b.ptr ∨ b.ptr + b.size ≤ nb.ptr))
+
+theorem allocPost_of_wf {hs' : Hist} {old : List Block} {nb : Block} (hwf : WF hs') (hl : hs'.live = nb :: old) :
+    AllocPost hs' old nb := by
+  have hmem : nb ∈ hs'.live := by rw [hl]; exact List.mem_cons_self
+  refine ⟨hl, (live_aligned_sized hwf hmem).1, live_inside_segment hwf hmem, fun b hb => ?_⟩
+  obtain ⟨pre, post, hsplit⟩ := List.append_of_mem hb
+  have hne : nb.ptr ≠ b.ptr :=
+    live_ptrs_distinct hwf [] pre post nb b (by rw [hl, hsplit]; simp)
+  have hb' : b ∈ hs'.live := by rw [hl]; exact List.mem_cons_of_mem _ hb
+  exact ⟨fun h => hne h.symm, live_disjoint hwf hmem hb' hne⟩
+
+/-- **alloc_ok** (partial: `WF` of the produced state is a hypothesis): a non-null `malloc` result is
+aligned as requested, designates `size` bytes inside one segment, was not live before and overlaps
+no other live block; the live set grows by exactly this block -/
+theorem alloc_ok_partial (hs hs' : Hist) (id size align : Nat) (os : List OsDir) (out : Out)
+    (h : hs.step (.malloc id size align) os = .ok (hs', out)) (hp : out.ptr ≠ 0) (hwf : WF hs') :
+    AllocPost hs' hs.live { id := id, ptr := out.ptr, size := size, align := align } := by
+  have := (step_malloc_live h).2
+  rw [if_pos hp] at this
+  exact allocPost_of_wf hwf this
+
+/-- **calloc_ok** (partial): as `alloc_ok`, and the `size` bytes are zeroed by the call -/
+theorem calloc_ok_partial (hs hs' : Hist) (id size align : Nat) (os : List OsDir) (out : Out)
+    (h : hs.step (.calloc id size align) os = .ok (hs', out)) (hp : out.ptr ≠ 0) (hwf : WF hs') :
+    AllocPost hs' hs.live { id := id, ptr := out.ptr, size := size, align := align } ∧ out.zeroed = true := by
+  have hl := (step_calloc_live h).2
+  rw [if_pos hp] at hl
+  refine ⟨allocPost_of_wf hwf hl, ?_⟩
+  -- zeroing happens unless the chunk is a direct-mmap chunk, which it is not
+  have hmem : ({ id := id, ptr := out.ptr, size := size, align := align } : Block) ∈ hs'.live := by
+    rw [hl]; exact List.mem_cons_self
+  obtain ⟨e, he, hc, _⟩ := live_block hwf hmem
+  unfold Hist.step at h
+  dsimp only at h
+  msimp at h
+  obtain ⟨_, _, ⟨s1, p, z⟩, hm, _, _, h⟩ := h
+  simp only [Prod.mk.injEq] at h
+  obtain ⟨h1, h2⟩ := h
+  subst h1; subst h2
+  obtain ⟨e', he', hz⟩ := calloc_zeroed hm hp
+  rw [MEM_OFFSET_eq] at he'
+  simp only at he
+  rw [he] at he'
+  injection he' with he'
+  subst he'
+  simp [hz, Ent.mmapped, hc]
+
+/-- **realloc_ok** (partial): a successful reallocation yields a block of the new size with all the
+properties of a fresh allocation relative to the *other* live blocks; it either stays at its address
+without any copy, or exactly one copy from the old to the new block is made (never longer than the
+new size; exactly `min old new` bytes on the over-aligned path) before the old block is freed -/
+theorem realloc_ok_partial (hs hs' : Hist) (id newsize : Nat) (os : List OsDir) (out : Out)
+    (h : hs.step (.realloc id newsize) os = .ok (hs', out)) (hp : out.ptr ≠ 0) (hwf : WF hs') :
+    ∃ b, findBlock hs.live id = some b ∧
+      AllocPost hs' (hs.live.filter fun x => x.id ≠ id) { b with ptr := out.ptr, size := newsize } ∧
+      ((out.copy = none ∧ out.ptr = b.ptr) ∨
+       ∃ len, out.copy = some { src := b.ptr, dst := out.ptr, len := len } ∧ len ≤ newsize ∧
+         (b.align > MALLOC_ALIGNMENT → len = min b.size newsize)) := by
+  obtain ⟨b, hb, hl⟩ := step_realloc_live h
+  rw [if_pos hp] at hl
+  refine ⟨b, hb, allocPost_of_wf hwf hl, ?_⟩
+  unfold Hist.step at h
+  dsimp only at h
+  rw [hb] at h
+  dsimp only at h
+  msimp at h
+  obtain ⟨⟨s1, p, c⟩, hm, _, _, h⟩ := h
+  simp only [Prod.mk.injEq] at h
+  obtain ⟨h1, h2⟩ := h
+  subst h1; subst h2
+  exact realloc_copy hm hp
+
+/-- **free_ok**: `free` removes exactly the named block from the live set; (with `WF` of the produced
+state every remaining block keeps all guarantees of §2) -/
+theorem free_ok_partial (hs hs' : Hist) (id : Nat) (os : List OsDir) (out : Out)
+    (h : hs.step (.free id) os = .ok (hs', out)) :
+    ∃ b, findBlock hs.live id = some b ∧ hs'.live = hs.live.filter (fun x => x.id ≠ id) ∧
+      (WF hs' → ∀ b1 ∈ hs'.live, ∀ b2 ∈ hs'.live, b1.ptr ≠ b2.ptr →
+        b1.ptr + b1.size ≤ b2.ptr ∨ b2.ptr + b2.size ≤ b1.ptr) := by
+  obtain ⟨b, hb, hl⟩ := step_free_live h
+  exact ⟨b, hb, hl, fun hwf _ h1 _ h2 hne => live_disjoint hwf h1 h2 hne⟩
+
+/-- **oom_null** (full): if the OS refused an mmap during an operation, the operation returned null,
+the allocator's state is exactly what it was before the call and the set of live blocks is
+unchanged — nothing is lost, and every later operation behaves as if the refused call had never
+been made (in particular a later request that fits is served: `Props/C04.reuse_without_os`). -/
+theorem oom_null (hs hs' : Hist) (op : Op) (os : List OsDir) (out : Out)
+    (h : hs.step op os = .ok (hs', out)) (hr : refused hs'.st.evs = true) :
+    out.ptr = 0 ∧ hs'.st.core = hs.st.core ∧ hs'.live = hs.live :=
+  step_refusal h hr
+
+/-- `free` never asks the OS for memory, so it cannot be refused any -/
+theorem free_never_asks_for_memory (hs hs' : Hist) (id : Nat) (os : List OsDir) (out : Out)
+    (h : hs.step (.free id) os = .ok (hs', out)) : refused hs'.st.evs = false := by
+  cases hr : refused hs'.st.evs with
+  | false => rfl
+  | true =>
+    have := (step_refusal h hr).1
+    unfold Hist.step at h
+    dsimp only at h
+    split at h
+    · msimp at h
+    · msimp at h
+      obtain ⟨s1, hm, _, _, h⟩ := h
+      simp only [Prod.mk.injEq] at h
+      obtain ⟨_, ho⟩ := h; subst ho
+      simp at this
+
+/-! ## 4. non-vacuity: concrete histories evaluated by the kernel -/
+
+theorem ok_of_matchB {α : Type} {x : M α} {p : α → Bool}
+    (h : (match x with | .ok v => p v | .error _ => false) = true) : ∃ v, x = .ok v ∧ p v = true := by
+  cases x with
+  | ok v => exact ⟨v, rfl, h⟩
+  | error e => cases h
+
+/-- fresh heap: 100 bytes, then 300 zeroed bytes 64-aligned (memalign), a growing realloc, a free -/
+def demoOps : List (Op × List OsDir) :=
+  [(.malloc 1 100 8, [.m (some 1048576)]), (.calloc 2 300 64, []), (.realloc 1 5000, []), (.free 2, [])]
+
+def demoState : Hist := match Hist.init.run demoOps with
+  | .ok (hs, _) => hs
+  | .error _ => Hist.init
+
+set_option maxRecDepth 20000 in
+/-- `WF` holds on a non-trivial state with two bins in use and one live block -/
+example : WF demoState ∧ demoState.live.length = 1 ∧ demoState.st.h.ents.length = 4 ∧ treemap demoState.st.h ≠ 0 := by
+  unfold WF; decide
+
+set_option maxRecDepth 20000 in
+/-- hypotheses of `alloc_ok_partial` / `calloc_ok_partial` / `realloc_ok_partial` / `free_ok_partial` -/
+example : ∃ hs' out, demoState.step (.calloc 7 70000 4096) [.m (some 524288)] = .ok (hs', out) ∧
+    out.ptr ≠ 0 ∧ WF hs' := by
+  obtain ⟨v, hv, hp⟩ := ok_of_matchB (x := demoState.step (.calloc 7 70000 4096) [.m (some 524288)])
+    (p := fun v => decide (v.2.ptr ≠ 0) && wfb v.1) (by decide)
+  simp only [Bool.and_eq_true, decide_eq_true_eq] at hp
+  exact ⟨v.1, v.2, hv, hp.1, hp.2⟩
+
+set_option maxRecDepth 20000 in
+example : ∃ hs' out, demoState.step (.realloc 1 100000) [.m (some 524288)] = .ok (hs', out) ∧
+    out.ptr ≠ 0 ∧ WF hs' ∧ out.copy ≠ none := by
+  obtain ⟨v, hv, hp⟩ := ok_of_matchB (x := demoState.step (.realloc 1 100000) [.m (some 524288)])
+    (p := fun v => decide (v.2.ptr ≠ 0) && wfb v.1 && decide (v.2.copy ≠ none)) (by decide)
+  simp only [Bool.and_eq_true, decide_eq_true_eq] at hp
+  exact ⟨v.1, v.2, hv, hp.1.1, hp.1.2, hp.2⟩
+
+set_option maxRecDepth 20000 in
+/-- hypotheses of `oom_null`: the same request with the OS refusing the mapping -/
+example : ∃ hs' out, demoState.step (.malloc 7 70000 4096) [.m none] = .ok (hs', out) ∧
+    refused hs'.st.evs = true := by
+  obtain ⟨v, hv, hp⟩ := ok_of_matchB (x := demoState.step (.malloc 7 70000 4096) [.m none])
+    (p := fun v => refused v.1.st.evs) (by decide)
+  exact ⟨v.1, v.2, hv, hp⟩
+
+set_option maxRecDepth 20000 in
+example : ∃ hs' out, demoState.step (.free 1) [] = .ok (hs', out) ∧ WF hs' := by
+  obtain ⟨v, hv, hp⟩ := ok_of_matchB (x := demoState.step (.free 1) [])
+    (p := fun v => wfb v.1) (by decide)
+  exact ⟨v.1, v.2, hv, hp⟩
 
 end TinyVerif.Dl
